@@ -16,6 +16,11 @@ from core.exact import fr, tok, Tokens
 DT01 = exact.dt_tok(0.1)
 BIN = ("add", "sub", "mul", "div", "append")
 TOPS = ("fb", "div", "lft")          # operations that solve / invert (regime T)
+# >>> bdalg: the n-ary block-diagram functions of control/bdalg.py (node = [fn, x1, ..., xn])
+NARY = ("series", "parallel", "appendn")
+# feedback call forms: method / function, with the defaults sign=-1 and sys2=1 left out
+FB_VIA = ("method", "func", "method-sign", "func-sign", "method-all", "func-all")
+# <<< bdalg
 TOL = Fraction(1, 10 ** 8)
 POINTS = [Fraction(7, 3), Fraction(-11, 5), Fraction(13, 7), Fraction(-17, 4), Fraction(23, 6),
           Fraction(29, 9), Fraction(-31, 8), Fraction(37, 10), Fraction(-41, 12), Fraction(43, 5),
@@ -28,6 +33,11 @@ POINTS = [Fraction(7, 3), Fraction(-11, 5), Fraction(13, 7), Fraction(-17, 4), F
 #   ["S", q, kind]   ["A", p, m, [q...], dtype]
 #   ["neg", x] ["pow", k, x] ["fb", sign, via, x, y] ["sel", rows, cols, x] [binop, x, y]
 #   ["lft", nu, ny, x, y]      x.lft(y, nu, ny)   (nu / ny = -1: the default)
+#   ["series", x1, ..., xn] ["parallel", x1, ..., xn] ["appendn", x1, ..., xn] ["negate", x]
+#                              control.series / parallel / append / negate (n >= 1 operands)
+#   "fb" via: "method" x.feedback(y, sign) | "func" control.feedback(x, y, sign) |
+#             "*-sign" the same without the sign argument (sign = -1) | "*-all" without y and sign
+#             (y = 1, sign = -1); a scalar / array x (function form only) is converted first
 # ----------------------------------------------------------------------------
 
 def flatten(t):
@@ -41,10 +51,15 @@ def flatten(t):
         return "A %d %d %s" % (t[1], t[2], " ".join(t[3]))
     if k == "neg":
         return flatten(t[1]) + " neg"
+    if k == "negate":
+        return flatten(t[1]) + " negate"
+    if k in NARY:
+        return " ".join(flatten(x) for x in t[1:]) + " %s %d" % (k, len(t) - 1)
     if k == "pow":
         return flatten(t[2]) + " pow %d" % t[1]
     if k == "fb":
-        return flatten(t[3]) + " " + flatten(t[4]) + " fb " + t[1]
+        conv = " tosys" if t[3][0] in ("S", "A") else ""      # bdalg.feedback converts a constant sys1
+        return flatten(t[3]) + conv + " " + flatten(t[4]) + " fb " + t[1]
     if k == "lft":
         return flatten(t[3]) + " " + flatten(t[4]) + " lft %d %d" % (t[1], t[2])
     if k == "sel":
@@ -59,8 +74,10 @@ def children(t):
     k = t[0]
     if k in ("L", "S", "A"):
         return []
-    if k == "neg":
+    if k in ("neg", "negate"):
         return [1]
+    if k in NARY:
+        return list(range(1, len(t)))
     if k == "pow":
         return [2]
     if k in ("fb", "lft"):
@@ -206,6 +223,11 @@ def run_node(t, leaves, nodes):
     ev = lambda x: run_tree(x, leaves, nodes)
     if k == "neg":
         return -ev(t[1])
+    if k == "negate":
+        return ct.negate(ev(t[1]))
+    if k in NARY:
+        ops = [ev(x) for x in t[1:]]
+        return {"series": ct.series, "parallel": ct.parallel, "appendn": ct.append}[k](*ops)
     if k == "pow":
         return ev(t[2]) ** t[1]
     if k == "fb":
@@ -213,6 +235,16 @@ def run_node(t, leaves, nodes):
         sign = num_value(t[1], "float" if Fraction(t[1]).denominator != 1 else "int")
         if t[2] == "func":
             return ct.feedback(a, b, sign)
+        if t[2] in ("method-sign", "func-sign", "method-all", "func-all"):
+            if sign != -1 or (t[2].endswith("-all") and t[4] != ["S", "1", "int"]):
+                raise AssertionError("harness: default-argument form of feedback with non-default data")
+            if t[2] == "func-sign":
+                return ct.feedback(a, b)
+            if t[2] == "method-sign":
+                return a.feedback(b)
+            if t[2] == "func-all":
+                return ct.feedback(a)
+            return a.feedback()
         return a.feedback(b, sign)
     if k == "lft":
         a, b = ev(t[3]), ev(t[4])
@@ -349,6 +381,43 @@ def rank_demand(t):
     return q if q * RANK_MARGIN <= 1 else None
 
 
+# >>> bdalg ------------------------------------------------------------------------------------
+def is_const(t):
+    return t[0] in ("S", "A")
+
+
+def const_prefix(t):
+    """The n-ary calls of the tree whose fold starts on constants only, i.e. before any StateSpace
+    code runs: series / parallel whose first TWO operands are scalars / arrays (`M2 * M1`,
+    `M1 + M2` are evaluated by Python / NumPy), append whose FIRST operand is one (`M.append`).
+    Returns e.g. "series:array,array", "appendn:const-first" (the first such call) or None."""
+    if t[0] in ("series", "parallel") and len(t) >= 3 and is_const(t[1]) and is_const(t[2]):
+        nm = {"S": "scalar", "A": "array"}
+        return "%s:%s,%s" % (t[0], nm[t[1][0]], nm[t[2][0]])
+    if t[0] == "appendn" and is_const(t[1]):
+        return "appendn:const-first"
+    for i in children(t):
+        r = const_prefix(t[i])
+        if r is not None:
+            return r
+    return None
+
+
+def nary_calls(t, acc=None):
+    """(fn, number of operands) of every block-diagram function call in the tree"""
+    acc = [] if acc is None else acc
+    if t[0] in NARY:
+        acc.append((t[0], len(t) - 1))
+    elif t[0] == "negate":
+        acc.append(("negate", 1))
+    elif t[0] == "fb" and t[2] != "method":
+        acc.append(("feedback:" + t[2], 2))
+    for i in children(t):
+        nary_calls(t[i], acc)
+    return acc
+# <<< bdalg ------------------------------------------------------------------------------------
+
+
 class C02(Family):
     prop = "C02"
     extra_modules = ["CtrlVerif.Props.C02Tree",      # tree theorem (structural induction)
@@ -358,7 +427,8 @@ class C02(Family):
                      # control/statesp.py of the tree under check and proved equal to the run-time model
                      "CtrlVerif.Props.C02GenBasic", "CtrlVerif.Props.C02GenMul", "CtrlVerif.Props.C02GenAdd",
                      "CtrlVerif.Props.C02GenFeedback", "CtrlVerif.Props.C02GenPow", "CtrlVerif.Props.C02GenLft",
-                     "CtrlVerif.Props.C02Gen"]
+                     "CtrlVerif.Props.C02Gen",
+                     "CtrlVerif.Props.C02Bdalg"]     # (bdalg) n-ary series / parallel / append folds
 
     def pre_build(self):
         import os
@@ -384,6 +454,11 @@ class C02(Family):
         "structurally identical leaves of a tree are one Python object (operands are re-used), "
         "identical subtrees are evaluated once, and every tree is evaluated twice on the same "
         "operand objects; the model's values are immutable, so its result is the same each time",
+        "control.series / parallel / append are compared with the model's left fold of the binary "
+        "operators in call order (Model/C02Bdalg.lean; the fold on evaluated operands is the "
+        "evaluation of the fold tree: C02.Bd.bdalg_eq_eval); a leading constant followed by another "
+        "constant is the static gain it stands for (DSS.bdSeed) - where python-control evaluates "
+        "`M2 * M1` / `M.append` with NumPy instead, the difference is reported (two known findings)",
         "TransferFunction operands of StateSpace operators go through tf2ss, which is C03",
         "the timebase of results is decided by C05; C02 uses operands with compatible timebases"]
     rule = ("random expression trees over StateSpace leaves (nstates 0..3, shapes {1,2,3}^2, integer "
@@ -396,7 +471,13 @@ class C02(Family):
             "evaluated twice on the same operand objects; MIMO feedback loops and lft partitions that "
             "are ill-posed for finite-decimal data not representable in binary (and well-posed "
             "neighbours), ** -1 / division by such direct terms, and inversion-free arithmetic on "
-            "one-decimal data; a case is non-trivial when it has a "
+            "one-decimal data; calls of the block-diagram functions control.series / parallel / append "
+            "with 1..5 operands (square MIMO chains of non-commuting factors, non-square chains "
+            "k0 -> k1 -> ... -> kn, systems with and without states, arrays, scalars and SISO systems "
+            "broadcast anywhere in the call, the same system object several times), control.negate, "
+            "control.feedback / StateSpace.feedback with explicit and default sign / feedback path and "
+            "a constant forward path, alone, nested in the random trees and as operands of each other; "
+            "calls whose fold starts on two constants; a case is non-trivial when it has a "
             "leaf with states, at least one binary operator or feedback, and the model result has "
             "states; distinct = distinct canonical serialisation")
 
@@ -482,11 +563,28 @@ class C02(Family):
             ops += ["pow", "pow"]
         if p >= 2 and m >= 2:
             ops += ["append", "append"]
+        # >>> bdalg: the block-diagram functions as operators of the random trees
+        ops += ["series", "parallel", "negate", "fbcall"]
+        if p >= 2 and m >= 2:
+            ops += ["appendn"]
+        # <<< bdalg
         if self._ops is not None:
             ops = [o for o in ops if o in self._ops]
         op = rng.choice(ops)
         d = depth - 1
         bad = rng.random() < 0.04
+        # >>> bdalg
+        if op == "series":
+            return self.series_call(rng, dt, shape, min(d, 1), n=rng.choice([1, 2, 3, 3, 4]), bad=bad)
+        if op == "parallel":
+            return self.parallel_call(rng, dt, shape, min(d, 1), n=rng.choice([1, 2, 3, 3, 4]), bad=bad)
+        if op == "appendn":
+            return self.append_call(rng, dt, shape, min(d, 1))
+        if op == "negate":
+            return [op, self.gen(rng, d, shape, dt)]
+        if op == "fbcall":
+            return self.feedback_call(rng, dt, shape, min(d, 1))
+        # <<< bdalg
         if op in ("add", "sub"):
             r = rng.random()
             other = self.rshape(rng) if bad else shape
@@ -777,7 +875,8 @@ class C02(Family):
         """arithmetic without inversion on one-decimal data (every operation rounds: tolerance
         regime), operands re-used"""
         self._decimal, self._pool = True, {}
-        self._ops = ("add", "sub", "mul", "neg", "sel", "append", "pow")
+        self._ops = ("add", "sub", "mul", "neg", "sel", "append", "pow",
+                     "series", "parallel", "appendn", "negate")       # (bdalg)
         try:
             shape = self.rshape(rng)
             t = self.gen(rng, rng.choice([1, 2, 2]), shape, dt)
@@ -846,6 +945,187 @@ class C02(Family):
         if r < 0.5:
             return [rng.choice(["add", "sub"]), second, first]       # the intermediate result re-used
         return second
+
+    # >>> bdalg: control.series / parallel / append / negate / feedback ---------------------------
+    def bd_operand(self, rng, shape, dt, d=0, consts=True):
+        """an operand of a block-diagram function: mostly a system with states, else a static
+        system, an ndarray (when `consts`), or a small sub-expression"""
+        r = rng.random()
+        if r < 0.55:
+            return self.leaf(rng, shape, dt, n=rng.choice([1, 1, 2, 2, 3]))
+        if r < 0.65:
+            return self.leaf(rng, shape, dt, n=0)
+        if r < 0.8 and consts:
+            return self.array(rng, shape)
+        if d > 0:
+            return self.gen(rng, d, shape, dt)
+        return self.leaf(rng, shape, dt)
+
+    def bd_small(self, rng, dt):
+        """a 1 x 1 operand that the operators broadcast: Python / NumPy scalar or SISO system"""
+        if rng.random() < 0.5:
+            return self.scalar(rng)
+        return self.leaf(rng, (1, 1), dt, n=rng.choice([0, 1, 1, 2]))
+
+    def bd_fix_head(self, rng, ops, shapes, dt):
+        """a StateSpace among the first two operands (first operand for append): the fold then
+        runs on StateSpace operators from its first step (the other case is `bd_const_prefix`)"""
+        if not any(not is_const(x) for x in ops[:2]):
+            i = rng.randrange(min(2, len(ops)))
+            if shapes[i] is None:
+                ops[i] = self.leaf(rng, (1, 1), dt, n=rng.choice([0, 1, 2]))
+            else:
+                ops[i] = self.leaf(rng, shapes[i], dt, n=rng.choice([0, 1, 1, 2]))
+        return ops
+
+    def series_call(self, rng, dt, shape, d=0, n=None, bad=False):
+        """series(x1, ..., xn) of shape p x m: the signal dimensions chain m = k0 -> k1 -> ... ->
+        kn = p, xi is k_i x k_(i-1); square MIMO chains (non-commuting factors), non-square
+        chains, 1 x 1 operands broadcast anywhere in the chain"""
+        p, m = shape
+        if n is None:
+            n = rng.choice([1, 2, 3, 3, 3, 4, 4, 5])
+        if p == m and rng.random() < 0.5:
+            dims = [p] * (n + 1)
+        else:
+            dims = [m] + [rng.choice([1, 2, 2, 3, 3]) for _ in range(n - 1)] + [p]
+        if n == 1:
+            dims = [m, p]
+        shapes = [(dims[i + 1], dims[i]) for i in range(n)]
+        if bad:
+            i = rng.randrange(n)
+            shapes[i] = (shapes[i][0] + rng.choice([0, 1]), shapes[i][1] + 1)
+        ops = [self.bd_operand(rng, sh, dt, d) for sh in shapes]
+        if rng.random() < 0.25:        # a scalar / SISO factor somewhere in the chain
+            i = rng.randrange(n + 1)
+            ops.insert(i, self.bd_small(rng, dt))
+            shapes.insert(i, None)
+        return ["series"] + self.bd_fix_head(rng, ops, shapes, dt)
+
+    def parallel_call(self, rng, dt, shape, d=0, n=None, bad=False):
+        if n is None:
+            n = rng.choice([1, 2, 3, 3, 3, 4, 5])
+        shapes = [shape] * n
+        if bad:
+            shapes[rng.randrange(n)] = (shape[0] + rng.choice([0, 1]), shape[1] + 1)
+        ops = [self.bd_operand(rng, sh, dt, d) for sh in shapes]
+        if rng.random() < 0.25:        # a scalar / SISO summand (added to every entry)
+            i = rng.randrange(n + 1)
+            ops.insert(i, self.bd_small(rng, dt))
+            shapes.insert(i, None)
+        return ["parallel"] + self.bd_fix_head(rng, ops, shapes, dt)
+
+    def append_call(self, rng, dt, shape, d=0, n=None):
+        """append(x1, ..., xn) of shape p x m: p and m split into n positive parts"""
+        p, m = shape
+        if n is None:
+            n = rng.randint(1, min(p, m, 4))
+        def parts(tot):
+            cs = sorted(rng.sample(range(1, tot), n - 1))
+            return [b - a for a, b in zip([0] + cs, cs + [tot])]
+        ps, ms = parts(p), parts(m)
+        shapes = list(zip(ps, ms))
+        ops = []
+        for sh in shapes:
+            if sh == (1, 1) and rng.random() < 0.2:
+                ops.append(self.scalar(rng))
+            else:
+                ops.append(self.bd_operand(rng, sh, dt, d))
+        if is_const(ops[0]):
+            ops[0] = self.leaf(rng, shapes[0], dt, n=rng.choice([0, 1, 1, 2]))
+        return ["appendn"] + ops
+
+    def feedback_call(self, rng, dt, shape, d=0):
+        """control.feedback / StateSpace.feedback in their call forms: explicit arguments, default
+        sign, default feedback path (sys2 = 1) - and a scalar / array forward path (function form
+        with a state-space feedback path)"""
+        p, m = shape
+        via = rng.choice(FB_VIA + (("method-all", "func-all") if shape == (1, 1) else ()))
+        if via.endswith("-all") and shape != (1, 1) and rng.random() < 0.9:
+            # the default feedback path is the scalar 1: a SISO loop (MIMO: both sides reject it)
+            via = via[:-4] + "-sign"
+        if via.endswith("-all"):
+            return ["fb", "-1", via, self.bd_operand(rng, (p, m), dt, d, consts=False), ["S", "1", "int"]]
+        sign = "-1" if via.endswith("-sign") else rng.choice(["-1", "1", "1", "2", "-1/2"])
+        if via.startswith("func") and rng.random() < 0.4:
+            # constant forward path: converted by bdalg.feedback; the path back is a system
+            g = self.scalar(rng) if (p, m) == (1, 1) and rng.random() < 0.5 else self.array(rng, (p, m))
+            k = self.leaf(rng, (m, p), dt, n=rng.choice([0, 1, 1, 2]))
+            return ["fb", sign, via, g, k]
+        g = self.bd_operand(rng, (p, m), dt, d, consts=False)
+        r = rng.random()
+        if r < 0.7:
+            k = self.bd_operand(rng, (m, p), dt, 0, consts=False)
+        elif r < 0.8 and (p, m) == (1, 1):
+            k = self.scalar(rng)
+        else:
+            k = self.array(rng, (m, p))
+        return ["fb", sign, via, g, k]
+
+    def bd_call(self, rng, dt, shape=None, d=0):
+        """one call of a block-diagram function (the dedicated stream)"""
+        r = rng.random()
+        bad = rng.random() < 0.05
+        if r < 0.4:
+            if shape is None:
+                k = rng.choice([2, 2, 3])
+                shape = (k, k) if rng.random() < 0.45 else self.rshape(rng)
+            return self.series_call(rng, dt, shape, d, bad=bad)
+        if shape is None:
+            shape = self.rshape(rng)
+        if r < 0.6:
+            return self.parallel_call(rng, dt, shape, d, bad=bad)
+        if r < 0.75:
+            if min(shape) < 2 and rng.random() < 0.7:
+                shape = (rng.choice([2, 3, 4, 4]), rng.choice([2, 3, 4, 4]))
+            return self.append_call(rng, dt, shape, d, n=rng.randint(max(1, min(shape) - 2), min(shape)))
+        if r < 0.82:
+            return ["negate", self.bd_operand(rng, shape, dt, d, consts=False)]
+        if rng.random() < 0.35:
+            shape = (1, 1)
+        return self.feedback_call(rng, dt, shape, d)
+
+    def gen_bdalg(self, rng, dt):
+        """the dedicated stream: a call, operands from a pool in a third of the cases (the same
+        system object several times in one call), sometimes used further in an expression"""
+        self._pool = {} if rng.random() < 0.35 else None
+        try:
+            t = self.bd_call(rng, dt, d=rng.choice([0, 0, 0, 1]))
+            r = rng.random()
+            if r < 0.12:
+                t = ["neg", t]
+            elif r < 0.2:
+                t = ["negate", t]
+            elif r < 0.3:
+                t = [rng.choice(["add", "sub"]), t, self.scalar(rng)]
+            return t
+        finally:
+            self._pool = None
+
+    def bd_const_prefix(self, rng, dt):
+        """calls whose fold starts on constants only (before any StateSpace code runs): the first
+        two operands of series / parallel are scalars / arrays, the first operand of append is
+        one; a StateSpace system follows.  Square arrays of one shape (so that NumPy's `*` and `+`
+        are defined on them)."""
+        k = rng.choice([1, 2, 2, 3])
+        fn = rng.choice(["series", "series", "parallel", "appendn"])
+        c = lambda: self.scalar(rng, nonzero=True) if rng.random() < 0.35 else self.array_new(rng, (k, k))
+        g = self.leaf_new(rng, (k, k), dt, n=rng.choice([0, 1, 1, 2]))
+        if fn == "appendn":
+            ops = [c(), g] + ([self.array_new(rng, (1, 1))] if rng.random() < 0.3 else [])
+            return [fn] + ops
+        ops = [c(), c(), g]
+        if fn == "series" and ops[0][0] == "A" and ops[1][0] == "A":
+            # two leading arrays: NumPy's element-wise product instead of the matrix product (known
+            # finding).  A static gain with an invertible direct term follows, so that the result
+            # differs from the model's in its transfer matrix exactly when the two products differ
+            # (with dynamics the difference can hide in an unreachable / unobservable part).
+            ops[2] = self.leaf_new(rng, (k, k), dt, invertible=True, n=0)
+            return [fn] + ops
+        if rng.random() < 0.3:
+            ops.append(self.leaf_new(rng, (k, k), dt, n=rng.choice([0, 1])))
+        return [fn] + ops
+    # <<< bdalg -------------------------------------------------------------------------------
 
     def special(self, rng):
         """streams that need something specific"""
@@ -917,6 +1197,12 @@ class C02(Family):
             out.append({"tree": self.inverse_decimal(rng, rng.choice(dts))})
         for i in range(30 if q else 300):        # rounding arithmetic on decimal data
             out.append({"tree": self.gen_decimal(rng, rng.choice(dts))})
+        # >>> bdalg: calls of series / parallel / append / negate / feedback with 1, 2, 3, ... operands
+        for i in range(110 if q else 1500):
+            out.append({"tree": self.gen_bdalg(rng, rng.choice(dts + ["D1/4"]))})
+        for i in range(10 if q else 80):         # ... whose fold starts on constants only
+            out.append({"tree": self.bd_const_prefix(rng, rng.choice(dts))})
+        # <<< bdalg
         return out
 
     def corpus(self):
@@ -939,6 +1225,17 @@ class C02(Family):
             # an operand used again after it took part in an operation (one object per identical leaf)
             {"tree": ["sub", ["add", g32, ["A", 3, 2, ["1", "2", "3", "4", "5", "6"], "float"]], g32]},
             {"tree": ["add", ["mul", g22, ["S", "2", "float"]], g22]},
+            # >>> bdalg: series of three non-commuting 2 x 2 systems; a non-square chain 2 -> 3 -> 1 -> 2;
+            # parallel / append of three; feedback with the default arguments
+            {"tree": ["series", L(1, 2, 2, [-1], [1, 2], [1, 3], [1, 2, 3, 4]),
+                      L(0, 2, 2, [], [], [], [0, 1, 1, 1]), L(1, 2, 2, [-2], [0, 1], [1, 1], [1, 0, 2, 1])]},
+            {"tree": ["series", L(1, 3, 2, [-1], [1, 2], [1, 0, 3], [1, 0, 0, 1, 2, 2]),
+                      L(1, 1, 3, [-2], [1, 0, 2], [1], [1, 2, 3]), L(0, 2, 1, [], [], [], [1, -1])]},
+            {"tree": ["parallel", g22, ["A", 2, 2, ["1", "2", "3", "4"], "float"], g22, ["S", "2", "int"]]},
+            {"tree": ["appendn", g22, L(1, 1, 1, [-2], [1], [1], [1]), ["A", 1, 2, ["1", "2"], "int"]]},
+            {"tree": ["fb", "-1", "func-all", L(1, 1, 1, [-1], [1], [1], [2]), ["S", "1", "int"]]},
+            {"tree": ["fb", "-1", "func-sign", ["A", 2, 2, ["1", "2", "3", "4"], "float"], g22]},
+            # <<< bdalg
         ]
 
     # ---- execution ----------------------------------------------------------
@@ -993,6 +1290,9 @@ class C02(Family):
             feat["exc"] = impl["exc"].split(":")[0]
             feat["msg"] = re.sub(r"[0-9]+", "#", impl["exc"].split(":", 1)[1].strip())[:60]
         feat["ops"] = "+".join(sorted(set(ops_in(case["tree"])))) or "leaf"
+        cp = const_prefix(case["tree"])          # (bdalg) the fold of an n-ary call starts on constants
+        if cp is not None:
+            feat["const_prefix"] = cp
         return feat
 
     def transfer_differs(self, a, b, exact_regime):
@@ -1092,7 +1392,7 @@ class C02(Family):
         t = case["tree"]
         if "ok" not in model or model["ok"]["type"] != "ss":
             return False
-        if not has_dynamic_leaf(t) or not any(o in BIN or o in ("fb", "lft") for o in ops_in(t)):
+        if not has_dynamic_leaf(t) or not any(o in BIN or o in ("fb", "lft") or o in NARY for o in ops_in(t)):
             return False
         return model["ok"]["n"] > 0
 
@@ -1111,6 +1411,10 @@ class C02(Family):
             st["illposed_rounded"] = "error-demanded" if rank_demand(t) is not None else "guarded"
         lv = leaf_keys(t)
         st["operand_reused"] = len(lv) != len(set(lv))
+        calls = nary_calls(t)                    # (bdalg) function / operand count of the largest call
+        if calls:
+            fn, n = max(calls, key=lambda c: c[1])
+            st["bdalg"] = "%s/%d" % (fn, min(n, 6))
         return st
 
     # ---- shrinking / search ----------------------------------------------------
@@ -1124,6 +1428,9 @@ class C02(Family):
         for s in subtrees(t):
             if s[0] not in ("S", "A"):
                 yield {"tree": s}
+        if t[0] in NARY and len(t) > 2:                   # (bdalg) one operand less at the root
+            for i in range(1, len(t)):
+                yield {"tree": t[:i] + t[i + 1:]}
 
         def rebuild(t, path, new):
             if not path:
@@ -1166,6 +1473,9 @@ class C02(Family):
             elif sub[0] not in ("S", "A"):
                 for i in children(sub):
                     yield {"tree": rebuild(t, list(pth), sub[i])}
+                if sub[0] in NARY and len(sub) > 2:       # (bdalg) one operand less
+                    for i in range(1, len(sub)):
+                        yield {"tree": rebuild(t, list(pth), sub[:i] + sub[i + 1:])}
 
     def search(self, rng, case, tier):
         out = []
